@@ -41,6 +41,21 @@ def test_ext():
 ''' % (hashlib.sha256(USED).hexdigest()[:12], hashlib.sha256(USED).hexdigest()[:12])
 
 
+FRESH = "fresh text that is not stored yet"
+OTHER = "other text that is not stored yet"
+# outsource() of values that are not stored: their persisted files (without -new) may only appear when the category of the snapshot that refers to them is approved
+TEST_OUT = '''from inline_snapshot import snapshot, outsource, external
+
+
+def test_out_create():
+    assert outsource(%r) == snapshot()
+
+
+def test_out_fix():
+    assert outsource(%r) == snapshot(external("%s*.txt"))
+''' % (FRESH, OTHER, hashlib.sha256(USED).hexdigest()[:12])
+
+
 def g_flag(f):
     return FLAGC.get(f) or f"(FUnknown {abs(hash(f)) % 7})"
 
@@ -118,7 +133,7 @@ def run_config(conf):
     try:
         # test_zz.py holds one more create change and nothing else: what one category changes lies in other files than what
         # another category changes
-        files = {"test_cats.py": TEST_CATS, "test_ext.py": TEST_EXT, "test_zz.py": "from inline_snapshot import snapshot\n\n\ndef test_zz():\n    assert 3 == snapshot()\n",
+        files = {"test_cats.py": TEST_CATS, "test_ext.py": TEST_EXT, "test_out.py": TEST_OUT, "test_zz.py": "from inline_snapshot import snapshot\n\n\ndef test_zz():\n    assert 3 == snapshot()\n",
                  f".inline-snapshot/external/{hashlib.sha256(USED).hexdigest()}.txt": USED,
                  f".inline-snapshot/external/{hashlib.sha256(UNUSED).hexdigest()}.txt": UNUSED,
                  ".inline-snapshot/external/.gitignore": "# ignore all snapshots which are not referred in the source\n*-new.*\n"}
@@ -167,8 +182,12 @@ def run_config(conf):
         known_forms = txt.count("snapshot()") + txt.count("snapshot(1)") + txt.count("snapshot(2)") + txt.count("snapshot([1, 2])") + txt.count("snapshot([1])") \
             + txt.count('snapshot("""a""")') + txt.count('snapshot("a")')
         removed = f".inline-snapshot/external/{hashlib.sha256(UNUSED).hexdigest()}.txt" not in after
-        changed = sorted(k for k in set(before) | set(after) if before.get(k) != after.get(k))
-        return {"rc": r["rc"], "usage_error": r["rc"] == 4, "applied": applied, "removed": removed, "changed": changed, "weird": known_forms != 4,
+        # files of values that are not persisted (<hash>-new.<suffix>, pruned by the next session) are not "written" in the sense of the property
+        changed = sorted(k for k in set(before) | set(after) if before.get(k) != after.get(k) and "-new." not in k)
+        persisted = {c: f".inline-snapshot/external/{hashlib.sha256(t.encode()).hexdigest()}.txt" in after for c, t in (("create", FRESH), ("fix", OTHER))}
+        out_txt = (d / "test_out.py").read_text()
+        out_applied = {"create": "snapshot()" not in out_txt, "fix": hashlib.sha256(OTHER.encode()).hexdigest()[:12] in out_txt}
+        return {"rc": r["rc"], "usage_error": r["rc"] == 4, "applied": applied, "removed": removed, "changed": changed, "weird": known_forms != 4, "persisted": persisted, "out_applied": out_applied,
                 "tail": (r["stdout"][-1500:] + r["stderr"][-500:]), "text": txt, "infra": r.get("infra_error")}
     finally:
         shutil.rmtree(d, ignore_errors=True)
@@ -288,6 +307,12 @@ def run(ctx: Ctx):
             why = f"categories {sorted(written - ok)} were written but only {sorted(ok)} are approved"
         elif not ok and (o["changed"] and not (o["removed"] and o["changed"] == [x for x in o["changed"] if "external" in x])):
             why = f"nothing is approved but files changed: {o['changed']}"
+        elif [x for x in ("create", "fix") if o["persisted"][x] and x not in ok]:
+            why = f"the value of an outsource() call was persisted although {[x for x in ('create', 'fix') if o['persisted'][x] and x not in ok]} is not approved"
+        elif [x for x in ("create", "fix") if o["out_applied"][x] != o["persisted"][x]]:
+            why = f"snapshots referring to outsourced values were written {o['out_applied']} but the values are persisted {o['persisted']}"
+        elif o["out_applied"] != {x: o["applied"][x] for x in ("create", "fix")}:
+            why = f"test_out.py got {o['out_applied']} but test_cats.py got {o['applied']}"
         elif o["removed"] and "trim" not in ok:
             why = "an unreferenced persisted external was removed although trim is not approved"
         elif o["weird"]:
